@@ -25,10 +25,6 @@ def minQ (l : List Rat) (d : Rat) : Rat := l.foldl (fun m x => if x < m then x e
 def bpMargin (l : List Rat) (u : Rat) : Rat :=
   minQ ((List.range l.length).map (fun k => absQ (cum l (k + 1) - u))) 1
 
-/-- the defining clause of the dense sampler on the implementation's answer `r` -/
-def intervalSpec (l : List Rat) (u : Rat) (r : Nat) : Bool :=
-  decide (r < l.length) && decide (cum l r ≤ u) && (decide (l.length ≤ r + 1) || decide (u < cum l (r + 1)))
-
 /-- one draw of a dense scan: (conditioned?, failure?, diff?) folded into the verdict -/
 def denseOne (comp : String) (l : List Rat) (v : Verdict) (ur : Rat × Nat) : Verdict :=
   let (u, r) := ur
@@ -128,6 +124,28 @@ def rand : P String := do
 
 def isPow2 (n : Nat) : Bool := n != 0 && (List.range 12).any (fun k => 2 ^ k == n)
 
+/-- states visited by the constructor's main loop (same step functions as the model) -/
+def voseStates (fixed : Bool) (n : Nat) (avg : Rat) : Nat → Vose → List Vose
+  | 0, st => [st]
+  | fuel + 1, st =>
+    if st.small < n && st.large < n then
+      st :: voseStates fixed n avg fuel (if fixed then voseStepFixed n avg st else voseStep n avg st)
+    else [st]
+
+/-- conditioning of the construction on non-dyadic data: the smallest distance from `avg` of any
+    *computed* entry in any visited state (entries still equal to their input value are compared
+    exactly by the double code as well).  When it is ≥ 1e-9 no comparison of the double
+    computation can come out differently from the exact one, so the tables must agree. -/
+def voseMargin (fixed : Bool) (p : List Rat) (avg : Rat) : Rat :=
+  let n := p.length
+  let small := scanFrom (fun i => p.getD i 0 ≥ avg) n n 0
+  let large := scanFrom (fun i => p.getD i 0 < avg) n n 0
+  let st0 : Vose := { prob := p, alias := List.replicate n (if fixed then n else 0), small, large, cp := small }
+  let sts := voseStates fixed n avg (2 * n + 1) st0
+  minQ (sts.flatMap (fun st => (List.range n).filterMap (fun i =>
+    let x := st.prob.getD i 0
+    if x == p.getD i 0 then none else some (absQ (x - avg))))) 1
+
 /-- `vose p… avg | thr… alias… monotone` : table reconstructed from the sampler's behaviour -/
 def vose : P String := do
   let p ← P.qs; let avg ← P.q; P.bar
@@ -138,7 +156,7 @@ def vose : P String := do
   let (mp, ma) := voseBuildImpl p avg
   let mthr := mp.map clamp01
   let ma := (List.range n).map (fun i => if mthr.getD i 0 == 1 then i else ma.getD i 0)
-  let exact := isPow2 n && p.all (fun q => (2 ^ 40) % q.den == 0)
+  let exact := (isPow2 n && p.all (fun q => (2 ^ 40) % q.den == 0)) || decide (tolCmp ≤ voseMargin Gen.C08.voseFixed p avg)
   let slack := absQ (1 - p.sum) + tolCmp
   let v : Verdict := { tag := if n ≤ 1 then "trivial" else if exact then "vose" else "vose-inexact" }
   let v := v.failIf (!(alias.all (fun a => decide (a < n)))) s!"{comp} alias_out_of_range {alias}"
